@@ -676,13 +676,20 @@ def _iter_standard_one(ctx, roles, v, kind, info, rules):
                       core.last_field(s["lhs"]) and core.last_field(s["lhs"])["name"] == "state_id" and
                       core.last_field(s["lhs"])["adt"] == I]
             oks = False
+            allres = bool(stores)
             for bi, si in stores:
                 t = pnorm(root.T.rvalue(b.blocks[bi]["stmts"][si]["rv"]))
                 if t[0] == "call" and t[3] == tsite and b.dominates(tbi, bi):
-                    oks = True
-                    store_bb = bi
+                    # unconditional: from the transition call the store is always reached
+                    if bi == tbi or bi in b.succ(tbi) or not (set(b.succ(tbi)) - {bi}):
+                        oks = True
+                else:
+                    allres = False
             ctx.check(oks, "ITER-STATE", b, "state-stored-back:" + tag, b.loc(tbi),
-                      "the transition result must be stored to self.state_id")
+                      "the transition result must be stored to self.state_id unconditionally")
+            ctx.check(allres, "ITER-STATE", b, "state-only-from-transition:" + tag, b.loc(tbi),
+                      "inside next() self.state_id may only be assigned the transition result (the automaton "
+                      "state persists across calls)")
         else:
             ok = True
             for m in members(starg):
